@@ -165,19 +165,6 @@ theorem stable_25 : Stable F25.parse F25.ser := by
 
 theorem stable_23E : Stable F23E.parse F23E.ser := stable_of_reproduces _ _ f23E_reproduces
 
-theorem ofOption_ok {α : Type} {o : Option α} {a : α} (h : Res.ofOption o = .ok a) : o = some a := by
-  cases o with
-  | none => simp [Res.ofOption] at h
-  | some x => simp [Res.ofOption] at h; subst h; rfl
-
-theorem hhmm_parse (t : Text) (tm : Nat × Nat) (h : parseTimeHHMM t = some tm) : hhmm tm = t := by
-  obtain ⟨hh, mm⟩ := tm
-  obtain ⟨a, b, c, d, ha, hb, hc, hd, rfl, rfl, rfl, _, _⟩ := (C11.time_accept_iff t hh mm).mp h
-  unfold hhmm
-  simp only
-  rw [C11.fmt2_digits ha hb, C11.fmt2_digits hc hd]
-  rfl
-
 /-- 11 -/
 theorem f11_reproduces (s : Text) (v : F11) (h : F11.parse s = .ok v) : F11RS.ser v = s := by
   unfold F11.parse at h
@@ -205,60 +192,6 @@ theorem f11_reproduces (s : Text) (v : F11) (h : F11.parse s = .ok v) : F11RS.se
   | [c0, c1, c2, c3, c4, c5, c6, c7, c8], _ => rfl
 
 theorem stable_11 : Stable F11.parse F11RS.ser := stable_of_reproduces _ _ f11_reproduces
-
-/-- 13D -/
-theorem f13D_reproduces (s : Text) (v : F13D) (h : F13D.parse s = .ok v) : F13D.ser v = s := by
-  unfold F13D.parse at h
-  split at h; · cases h
-  rename_i hasc
-  split at h; · cases h
-  rename_i hlen
-  have ha : isAsciiT s = true := by simpa using hasc
-  have hl : s.length = 15 := by
-    have : blen s = 15 := by simpa using hlen
-    rw [blen_ascii s ha] at this; exact this
-  rw [bslice_ascii s 0 6 ha (by omega) (by omega)] at h
-  simp only [Res.bind_ok] at h
-  obtain ⟨date, hd, h⟩ := bind_ok_inv h
-  rw [bslice_ascii s 6 10 ha (by omega) (by omega)] at h
-  simp only [Res.bind_ok] at h
-  obtain ⟨_, _, h⟩ := bind_ok_inv h
-  obtain ⟨time, ht, h⟩ := bind_ok_inv h
-  obtain ⟨c, hc⟩ : ∃ c, s[10]? = some c := ⟨s[10], List.getElem?_eq_getElem (by omega)⟩
-  rw [hc] at h
-  simp only [Res.unwrap, Res.bind_ok] at h
-  split at h; · cases h
-  rw [bslice_ascii s 11 15 ha (by omega) (by omega)] at h
-  simp only [Res.bind_ok] at h
-  obtain ⟨off, hoff, h⟩ := bind_ok_inv h
-  obtain ⟨_, _, h⟩ := bind_ok_inv h
-  obtain ⟨_, _, h⟩ := bind_ok_inv h
-  cases h
-  have hoff' : off = List.take (15 - 11) (List.drop 11 s) := by
-    unfold parseExactLength at hoff; split at hoff
-    · cases hoff; rfl
-    · cases hoff
-  have hp := C11.print_parse _ _ (ofOption_ok hd)
-  have hq := hhmm_parse _ _ (ofOption_ok ht)
-  unfold F13D.ser
-  simp only
-  rw [hp, hq, hoff']
-  have e10 : s.drop 10 = c :: s.drop 11 := by
-    have hlt : 10 < s.length := by omega
-    have : s[10] = c := by
-      have := List.getElem?_eq_getElem hlt
-      rw [this] at hc; exact Option.some.inj hc
-    rw [← this]; exact List.drop_eq_getElem_cons hlt
-  have e11 : (s.drop 11).take (15 - 11) = s.drop 11 := List.take_of_length_le (by simp [List.length_drop]; omega)
-  rw [e11]
-  have e6 : (s.drop 6).take (10 - 6) ++ s.drop 10 = s.drop 6 := by
-    have := List.take_append_drop 4 (s.drop 6)
-    rw [List.drop_drop] at this
-    simpa using this
-  calc (s.drop 0).take (6 - 0) ++ (s.drop 6).take (10 - 6) ++ c :: s.drop 11
-      = s.take 6 ++ ((s.drop 6).take (10 - 6) ++ s.drop 10) := by rw [e10]; simp
-    _ = s.take 6 ++ s.drop 6 := by rw [e6]
-    _ = s := List.take_append_drop 6 s
 
 theorem stable_13D : Stable F13D.parse F13D.ser := stable_of_reproduces _ _ f13D_reproduces
 
